@@ -52,7 +52,10 @@ def load_snapshot(path: str):
             raise HarnessError(f"{path}: no snapshot parsed")
         snap = snaps[0]
         _SNAP_CACHE[path] = snap
-    return snap
+    # a shallow copy per use: a run may override what the spa reports (firmware, config/log versions) without touching the cached parse
+    import copy
+
+    return copy.copy(snap)
 
 
 class OneShotExit:
